@@ -232,6 +232,17 @@ template<class T> struct CVec {
 	using value_type = T;
 	std::vector<T> d;
 	size_t size() const { return d.size(); }
+	// the rest of the read-only vector interface a helper might plausibly use (a change that starts using one of them
+	// must not break the build of the harness)
+	bool empty() const { return d.empty(); }
+	size_t capacity() const { return d.capacity(); }
+	void reserve(size_t n) { d.reserve(n); }
+	auto begin() { return d.begin(); }
+	auto end() { return d.end(); }
+	auto begin() const { return d.begin(); }
+	auto end() const { return d.end(); }
+	T& front() { if (d.empty()) throw OobAccess{0, 0}; return d.front(); }
+	T& back() { if (d.empty()) throw OobAccess{-1, 0}; return d.back(); }
 	void resize(unsigned long long n) {
 		if (n > (1ull << 22)) throw BadResize{n};
 		d.resize((size_t) n);
